@@ -131,6 +131,68 @@ def hash_stable(item):
     return ok(True)
 
 
+_SHADING_KINDS = {
+    "frozenset": frozenset, "set": set, "list": list, "tuple": tuple,
+    "generator": lambda cs: (c for c in cs), "iterator": lambda cs: iter(list(cs)),
+    "dict": lambda cs: dict.fromkeys(cs), "reversed": lambda cs: reversed(list(cs)),
+}
+
+
+@check("C08.construct")
+def construct(item):
+    """However the shading is handed over (set, list, generator, dict keys ...), the pattern is the same VALUE as
+    the one built from a frozenset: equal, same hash (hash() must work), found in sets and dicts; and what the
+    caller does to the container afterwards does not change the pattern."""
+    t, cells, kind, cls = item
+    Perm, MeshPatt, Biv, Vin, Cov, _B, _MB = _kinds()
+    canon = MeshPatt(Perm(t), frozenset(cells))
+    box = _SHADING_KINDS[kind](cells)
+    try:
+        m = MeshPatt(Perm(t), box)
+        same = (m == canon, canon == m, hash(m) == hash(canon), m in {canon}, {m: 1}.get(canon) == 1)
+    except Exception as exc:  # noqa: BLE001
+        return bad("a hashable pattern equal to the frozenset-built one", f"raised {type(exc).__name__}: {exc}", f"MeshPatt(perm, {kind} of cells)")
+    if same != (True,) * 5:
+        return bad((True,) * 5, same, f"MeshPatt(perm, {kind} of cells) vs MeshPatt(perm, frozenset): ==, reflected ==, hash ==, in set, dict key")
+    h0 = hash(m)
+    if isinstance(box, (set, list, dict)):
+        # the caller goes on using its own container
+        if isinstance(box, set):
+            box.add((len(t), len(t)))
+            box.discard(next(iter(cells), None))
+        elif isinstance(box, list):
+            box.append((0, 0))
+            box[:1] = []
+        else:
+            box.clear()
+        try:
+            after = (m == canon, hash(m) == h0, view(m) == view(canon))
+        except Exception as exc:  # noqa: BLE001
+            return bad("unchanged", f"raised {type(exc).__name__}: {exc}", f"pattern after the caller mutated its {kind}")
+        if after != (True, True, True):
+            return bad((True, True, True), after, f"pattern changed when the caller mutated the {kind} it was built from")
+    # objects derived from it are values too: hashable, equal to a fresh copy of themselves
+    from vlib import codec
+
+    n = len(t)
+    derived = [m.reverse(), m.complement(), m.inverse(), m.rotate(), m.shade((0, 0))]
+    free = [(x, y) for x in range(n + 1) for y in range(n + 1) if (x, y) not in cells]
+    if free:
+        derived.append(m.add_point(free[0]))
+        derived.append(m.add_point(free[-1], 1))
+    if n:
+        derived.append(m.sub_mesh_pattern(range(n - 1)))
+    for d in derived:
+        try:
+            y = codec.dec(codec.enc(d))
+            good = (y == d, hash(y) == hash(d), d in {y})
+        except Exception as exc:  # noqa: BLE001
+            return bad("a hashable value", f"raised {type(exc).__name__}: {exc}", f"derived pattern {d!r}")
+        if good != (True, True, True):
+            return bad((True, True, True), good, f"derived pattern {d!r} vs a freshly built equal one")
+    return ok(bool(cells))
+
+
 @check("C08.sorted")
 def sorted_mixed(item):
     objs, seed = item
@@ -201,6 +263,16 @@ def run(ctx):
     ctx.run("C08.triple", itertools.product(perms[:14], repeat=3), chunk=2000, rule="all ordered triples of 14 perms")
     ctx.run("C08.hash_stable", everything, chunk=10,
             rule="hash of every pool object before/after 900 allocations (incl. live super() proxies) and gc; equal fresh object hashes the same")
+    cons = []
+    for t in [(), (0,), (0, 1), (1, 0), (1, 2, 0)]:
+        cs = D.cells(len(t))
+        for cells in [(), tuple(cs[:1]), tuple(cs[1:3]), tuple(cs[::2]), tuple(cs)]:
+            for kind in _SHADING_KINDS:
+                cons.append((t, cells, kind, "MeshPatt"))
+    ctx.run("C08.construct", cons, chunk=20,
+            rule=f"{len(cons)} = 5 patterns x 5 shadings x {len(_SHADING_KINDS)} container kinds for the shading (frozenset, set, list, tuple, generator, "
+                 "iterator, dict keys, reversed): same value as the frozenset-built pattern, unaffected by later mutation of the container; "
+                 "derived patterns (symmetries, shade, add_point, sub_mesh_pattern) are hashable values")
     lists = []
     for _ in range(60 if quick else 600):
         k = rng.randint(2, 9)
